@@ -1726,6 +1726,9 @@ class Engine:
             h = self.policy.get(("num_method", name))
             if h is not None:
                 return NativeFn(f"number.{name}", lambda *a, **k: h(self, o, *a, **k))
+            if name in ("dtype", "shape", "ndim") and self.policy.get("numbers_are_arrays"):
+                # a symbolic number standing for an array element: array metadata is an opaque library value
+                return {"dtype": Ext("array.dtype"), "shape": (), "ndim": 0}[name]
         if is_obj(o):
             self.attr_reads.add((_short_name(o), name))   # which attributes of opaque objects the code reads (frame obligations)
             ov = self.path.__dict__.get("opaque_attrs", {}).get((o.get_id(), name))
